@@ -82,6 +82,52 @@ def gen_modules(seed: int, n: int, prefix: str, ex=None) -> list[dict]:
     return out
 
 
+# ---------------------------------------------------------------- directed try/except shapes (static oracle only)
+
+SHAPE_BODY = ["g(y)", "a = mk()", "y = mk()", "g(a)", "z = a"]
+SHAPE_HANDLER = ["pass", "g(a)", "g(y)", "a = mk()", "return z"]
+SHAPE_TAIL = [["return a"], ["return y"], ["g(z)", "return a"]]
+SHAPE_PER_MODULE = 40
+
+
+def shape_space(blen: int) -> int:
+    return len(SHAPE_BODY) ** blen * len(SHAPE_HANDLER) * len(SHAPE_TAIL) * 2
+
+
+def shape_function(blen: int, idx: int, name: str) -> list[str]:
+    """Function number idx of the family: a borrowed argument `a`, two owned locals `y`, `z` created before a try whose body
+    is `blen` statements of SHAPE_BODY (so the argument is reassigned / aliased between calls that may raise), one handler
+    statement, optionally a finally clause, and a tail that decides which of them are still live after the try."""
+    fin, idx = idx % 2, idx // 2
+    tail, idx = SHAPE_TAIL[idx % len(SHAPE_TAIL)], idx // len(SHAPE_TAIL)
+    h, idx = SHAPE_HANDLER[idx % len(SHAPE_HANDLER)], idx // len(SHAPE_HANDLER)
+    body = []
+    for _ in range(blen):
+        body.append(SHAPE_BODY[idx % len(SHAPE_BODY)])
+        idx //= len(SHAPE_BODY)
+    out = ["def %s(a: object, mk: Callable[[], object], g: Callable[[object], Any]) -> object:" % name, "    y = mk()", "    z = mk()", "    try:"]
+    out += ["        " + b for b in body]
+    out += ["    except Exception:", "        " + h]
+    if fin:
+        out += ["    finally:", "        g(z)"]
+    out += ["    " + t for t in tail]
+    return out
+
+
+def shape_modules(seed: int, n3: int | None, n4: int) -> list[dict]:
+    """n3 functions (None: all) with 3 body statements and n4 with 4, drawn without replacement from the family."""
+    rnd = random.Random(seed ^ 0x5A9E)
+    picks = [(3, i) for i in (range(shape_space(3)) if n3 is None else sorted(rnd.sample(range(shape_space(3)), n3)))]
+    picks += [(4, i) for i in sorted(rnd.sample(range(shape_space(4)), n4))]
+    mods = []
+    for k in range(0, len(picks), SHAPE_PER_MODULE):
+        lines = ["from typing import Any, Callable", ""]
+        for blen, i in picks[k:k + SHAPE_PER_MODULE]:
+            lines += shape_function(blen, i, "s%d_%d" % (blen, i)) + [""]
+        mods.append({"module": "shape%d" % (k // SHAPE_PER_MODULE), "text": "\n".join(lines)})
+    return mods
+
+
 def fn_text(mod: dict, f: dict) -> str:
     ls = mod["text"].split("\n")
     i = f["first_line"] - 1
@@ -404,7 +450,7 @@ def run(run: Run) -> None:
         "independent nominal ownership checker (counts never negative, no use of a released/NULL value, nothing owned at Return/Unreachable, counts agree at joins); non-trivial = IR function "
         "with >=1 error branch and >=1 DecRef. DYNAMIC: Hypothesis-drawn choice streams -> generated modules (%d scenario functions each: borrowed args reassigned on one branch, loops with "
         "break/continue and live temporaries, try/except/finally + re-raise, [x, x]/(x, x)/d[k]=x steals, conditionally assigned locals and attributes (__init__ shapes), generators abandoned/closed, "
-        "closures, with) compiled by mypyc; each scenario x mode (0..%d) runs %d rounds under PYTHONMALLOC=debug -X faulthandler beside its interpreted twin: live Tracked count back to baseline, "
+        "closures, with) compiled by mypyc; the static oracle also gets a directed family of try/except(/finally) functions (borrowed argument reassigned/aliased between raising calls, 3 body statements: sampled in quick / all in thorough, 4: sampled); each scenario x mode (0..%d) runs %d rounds under PYTHONMALLOC=debug -X faulthandler beside its interpreted twin: live Tracked count back to baseline, "
         "getrefcount of persistent args unchanged, allocated-block growth over rounds %d..%d <= twin + %d, no fatal error, uninit reads raise like the twin; non-trivial = distinct (scenario text, mode) "
         "whose compiled run ends in an exception or executes a loop back-edge (measured by line tracing of the twin), always with tracked objects live."
         % ("seeded sample" if q else "all", FUNCS_PER_MODULE, c06_gen.NMODES - 1, c06_dyn.ROUNDS, c06_dyn.WARM, c06_dyn.ROUNDS, c06_dyn.BLOCK_SLACK)
@@ -458,6 +504,12 @@ def run(run: Run) -> None:
     step = 3
     for i in range(0, len(mods), step):
         tasks.append(("genir", mods[i:i + step]))
+    # directed family for the static oracle: try/except(/finally) functions in which a borrowed argument is reassigned or
+    # aliased between calls that may raise (edges into one handler that need the same releases but different acquisitions)
+    smods = shape_modules(run.seed, 360 if q else None, 240 if q else 6000)
+    for m in smods:
+        tasks.append(("genir", [m]))
+    run.label("directed_try_shape_functions", sum(m["text"].count("\ndef ") for m in smods))
     csz = 6 if q else 12
     for i in range(0, len(corpus_items), csz):
         tasks.append(("corpus", corpus_items[i:i + csz]))
